@@ -27,6 +27,8 @@ use crate::codec::family::Family;
 use crate::error::Error;
 use crate::hll::HllType;
 use crate::hll::KEY_MASK_26;
+use crate::hll::RESIZE_DENOMINATOR;
+use crate::hll::RESIZE_NUMERATOR;
 use crate::hll::container::COUPON_EMPTY;
 use crate::hll::container::Container;
 use crate::hll::serialization::COMPACT_FLAG_MASK;
@@ -104,6 +106,16 @@ impl HashSet {
             .map_err(insufficient_data("coupon_count"))?;
         let coupon_count = coupon_count as usize;
 
+        // A set only exists for lg_k >= 8 and is promoted before its table outgrows
+        // 2^(lg_k - 3) <= 2^18 slots, and it is never more than 75% full.
+        if !(2..=18).contains(&lg_arr)
+            || RESIZE_DENOMINATOR as usize * coupon_count > RESIZE_NUMERATOR as usize * (1 << lg_arr)
+        {
+            return Err(Error::deserial(format!(
+                "invalid set size: lg_arr {lg_arr}, coupon_count {coupon_count}"
+            )));
+        }
+
         if compact {
             // Compact mode: only couponCount coupons are stored
             // Create a new hash set and insert coupons one by one
@@ -129,6 +141,12 @@ impl HashSet {
                         "expected {array_size} coupons, failed at index {i}"
                     ))
                 })?;
+            }
+
+            if coupons.iter().filter(|&&c| c != COUPON_EMPTY).count() != coupon_count {
+                return Err(Error::deserial(format!(
+                    "corrupted set: expected {coupon_count} coupons in the table"
+                )));
             }
 
             Ok(Self {
